@@ -334,7 +334,7 @@ pub fn run(ctx: &mut Ctx) -> (&'static str, String, bool) {
         },
     };
     let asan = ctx.stage.as_deref() == Some("asan");
-    let factor = if asan { 3 } else if ctx.tier == Tier::Thorough { 24 } else { 5 };
+    let factor = if asan { 12 } else if ctx.tier == Tier::Thorough { 60 } else { 10 };
     let mut p = Part::new();
     let mut r = ctx.rng.fork(8);
     let mut total_sent = 0usize;
